@@ -275,13 +275,13 @@ func calculateAmountCostLen(posting *ast.Posting, commodityFormats map[string]Nu
 	length := 0
 
 	if posting.Amount.Commodity.Position == ast.CommodityLeft {
-		length += utf8.RuneCountInString(commodityText(posting.Amount.Commodity.Symbol))
+		length += utf8.RuneCountInString(commodityText(posting.Amount.Commodity.Symbol, posting.Amount.Commodity.Position))
 	}
 
 	length += utf8.RuneCountInString(formatAmountQuantity(posting.Amount, commodityFormats))
 
 	if posting.Amount.Commodity.Position == ast.CommodityRight && posting.Amount.Commodity.Symbol != "" {
-		length += 1 + utf8.RuneCountInString(commodityText(posting.Amount.Commodity.Symbol))
+		length += 1 + utf8.RuneCountInString(commodityText(posting.Amount.Commodity.Symbol, posting.Amount.Commodity.Position))
 	}
 
 	if posting.Cost != nil {
@@ -291,11 +291,11 @@ func calculateAmountCostLen(posting *ast.Posting, commodityFormats map[string]Nu
 			length += 3 // " @ "
 		}
 		if posting.Cost.Amount.Commodity.Position == ast.CommodityLeft {
-			length += utf8.RuneCountInString(commodityText(posting.Cost.Amount.Commodity.Symbol))
+			length += utf8.RuneCountInString(commodityText(posting.Cost.Amount.Commodity.Symbol, posting.Cost.Amount.Commodity.Position))
 		}
 		length += utf8.RuneCountInString(formatAmountQuantity(&posting.Cost.Amount, commodityFormats))
 		if posting.Cost.Amount.Commodity.Position == ast.CommodityRight && posting.Cost.Amount.Commodity.Symbol != "" {
-			length += 1 + utf8.RuneCountInString(commodityText(posting.Cost.Amount.Commodity.Symbol))
+			length += 1 + utf8.RuneCountInString(commodityText(posting.Cost.Amount.Commodity.Symbol, posting.Cost.Amount.Commodity.Position))
 		}
 	}
 
@@ -388,32 +388,32 @@ func formatPostingWithOpts(posting *ast.Posting, alignment AlignmentInfo, commod
 	return sb.String()
 }
 
-// commodityText returns a commodity symbol the way it has to be written. A symbol
-// with anything but letters and currency signs in it (a blank, a digit, punctuation)
-// only reads back as one commodity when it is enclosed in double quotes.
-func commodityText(symbol string) string {
-	letters, signs := 0, 0
+// commodityText returns a commodity symbol the way it has to be written at the given
+// side of the number. Without quotes the lexer reads only
+//   - one of the currency signs it knows ($ € £ ¥ ₽ ₴), on either side,
+//   - an all-upper-case ASCII word on the left ("EUR5", "EUR -5"),
+//   - a word of letters on the right ("5 eur", "5 руб").
+//
+// Everything else only reads back as one commodity when it is enclosed in double quotes.
+func commodityText(symbol string, pos ast.CommodityPosition) string {
+	switch symbol {
+	case "", "$", "€", "£", "¥", "₽", "₴":
+		return symbol
+	}
 	for _, r := range symbol {
-		switch {
-		case unicode.IsLetter(r):
-			letters++
-		case unicode.Is(unicode.Sc, r):
-			signs++
-		default:
+		if pos == ast.CommodityLeft && (r < 'A' || r > 'Z') {
 			return `"` + symbol + `"`
 		}
-	}
-	// Unquoted, a commodity is a word of letters or one currency sign; a symbol that
-	// mixes them ("US$") reads as two things without its quotes.
-	if signs > 1 || (signs == 1 && letters > 0) {
-		return `"` + symbol + `"`
+		if !unicode.IsLetter(r) {
+			return `"` + symbol + `"`
+		}
 	}
 	return symbol
 }
 
 func writeAmountWithSign(sb *strings.Builder, amount *ast.Amount, commodityFormats map[string]NumberFormat) {
 	qty := formatAmountQuantity(amount, commodityFormats)
-	symbol := commodityText(amount.Commodity.Symbol)
+	symbol := commodityText(amount.Commodity.Symbol, amount.Commodity.Position)
 
 	if amount.Commodity.Position == ast.CommodityLeft {
 		if amount.SignBeforeCommodity && len(qty) > 0 && (qty[0] == '-' || qty[0] == '+') {
